@@ -190,7 +190,7 @@ def run_trips(run):
                     if key not in ref_cache:
                         ref_cache[key] = canon(td, **opts)
                     try:
-                        with time_limit(60):
+                        with time_limit(180):
                             res = fn()
                             got = res[1] if isinstance(res, tuple) and len(res) == 2 and res[0] == "canon" else canon(res, **opts)
                         diff = first_diff(ref_cache[key], got)
